@@ -54,6 +54,27 @@ def _segment(module, f):
     return start, f.end_lineno, lines
 
 
+_ENGINE_DIGEST = None
+
+
+def _engine_digest():
+    """Digest of the analyser's own sources and tables: cached verdicts of an older prover are never reused."""
+    global _ENGINE_DIGEST
+    if _ENGINE_DIGEST is None:
+        h = hashlib.sha256()
+        here = os.path.dirname(os.path.abspath(__file__))
+        files = [os.path.join(here, n) for n in sorted(os.listdir(here)) if n.endswith(".py")]
+        files.append(os.path.join(os.path.dirname(here), "tables", "known_methods.json"))
+        for fn in files:
+            try:
+                with open(fn, "rb") as fh:
+                    h.update(fh.read())
+            except OSError:
+                h.update(b"missing:" + fn.encode())
+        _ENGINE_DIGEST = h.hexdigest()
+    return _ENGINE_DIGEST
+
+
 def canonical_program(root=None, overlay=None, use_cache=True):
     """-> (program for the rules, report dict)"""
     cur = core.Program(root=root, overlay=overlay)
@@ -80,6 +101,7 @@ def canonical_program(root=None, overlay=None, use_cache=True):
         digest.update(cur.modules[mn].source.encode())
     for mn in sorted(ref.modules):
         digest.update(ref.modules[mn].source.encode())
+    digest.update(_engine_digest().encode())      # a verdict is only as good as the prover that reached it
     cache_file = os.path.join(CACHE_DIR, digest.hexdigest()[:32] + ".json")
     verdicts = None
     if use_cache and os.path.exists(cache_file):
